@@ -151,8 +151,11 @@ class LessParser(object):
             print('Compiling target: %s' % filename, file=sys.stderr)
         self.result = self.parser.parse(file, lexer=self.lex, debug=debuglevel)
 
-        self.post_parse()
         if not self.importlvl:
+            # The units of an imported file are evaluated by the outermost
+            # parser, at their place among the units of the importing file
+            # and with everything the whole compilation defines.
+            self.post_parse()
             self.register.close()
 
     def post_parse(self):
